@@ -3313,7 +3313,12 @@ XPath::stepPattern(
 
                 for(;;)
                 {
-                    score = theTester(*context, nodeType);
+                    // The step is on the child axis, so it can't match
+                    // the root node, whatever the node test is...
+                    score = nodeType == XalanNode::DOCUMENT_NODE ||
+                            nodeType == XalanNode::DOCUMENT_FRAGMENT_NODE ?
+                                eMatchScoreNone :
+                                theTester(*context, nodeType);
 
                     if (eMatchScoreNone != score)
                     {
@@ -3347,7 +3352,11 @@ XPath::stepPattern(
 
             const XalanNode::NodeType   nodeType = context->getNodeType();
 
-            if(nodeType != XalanNode::ATTRIBUTE_NODE)
+            // The step is on the child axis, so it can't match an
+            // attribute or the root node, whatever the node test is...
+            if(nodeType != XalanNode::ATTRIBUTE_NODE &&
+               nodeType != XalanNode::DOCUMENT_NODE &&
+               nodeType != XalanNode::DOCUMENT_FRAGMENT_NODE)
             {
                 opPos += 3;
 
